@@ -655,6 +655,11 @@ func (lit *LiteralReader) Size() int64 {
 func (lit *LiteralReader) Read(b []byte) (int, error) {
 	n, err := lit.r.Read(b)
 	if err == io.EOF {
+		if lit.dec != nil {
+			// The literal data has been read: the CRLF of the literal header
+			// is no longer the last thing read, the line continues
+			lit.dec.crlf = false
+		}
 		lit.cancel()
 	}
 	return n, err
